@@ -52,6 +52,8 @@ var dictionary = []string{`"`, `""`, `''`, `'`, "@", ">", "+", "#", ":", "::", "
 	"ML:B:C", "\tML:B:C", "[&" + strings.Repeat("rate=0.125,height_95%_HPD={0.1,0.2},", 6) + "posterior=1]", "[]", "track name=x description=\"y z\"\n", "browser position chr1:1-2\n",
 	"\t-\t", "\t+\t", "M01234:56:000000000-ABCDE:1:1101:15589:1332 1:N:0:1", "/1", "chrUn_gl000220", "1e-05", "1.0E+2", "-0", "+1", "1.",
 	// numbers with more digits than a float64 or an int holds exactly
+	// words that a layer may take for a keyword (all of gen.HostileTokens are spliced as well, see exhaustiveC11)
+	"track", "track\t", "browser", "NA", "null", "%09", "%25",
 	"0.97552492417777546", ":0.97552492417777546", "0.1000000000000000055511151231257827", "9007199254740993", "1.7976931348623157e308", "4.9e-324", "123456789012345678901234567890"}
 
 // ---- own renderers of valid text (independent of the library's writers) -------------------
@@ -599,6 +601,23 @@ func exhaustiveC11(thorough bool, emit func(C11Case) bool) {
 				}
 			}
 		}
+		// every token (and every hostile token of the codec generators) at the start of a SECOND
+		// record: what is accepted there must be a fixed point when written on its own
+		for _, tok := range dictionary {
+			if !emit(C11Case{Kind: "total", Format: f, Text: gen.B(v + tok + v)}) {
+				return
+			}
+		}
+		for _, tok := range gen.HostileTokens {
+			for pos := 0; pos <= len(v); pos++ {
+				if pos > 0 && v[pos-1] != '\n' && v[pos-1] != '\t' && v[pos-1] != '>' && v[pos-1] != '@' && v[pos-1] != '(' && v[pos-1] != ',' {
+					continue // field starts only
+				}
+				if !emit(C11Case{Kind: "total", Format: f, Text: gen.B(v + v[:pos] + string(tok) + v[pos:])}) {
+					return
+				}
+			}
+		}
 		// every byte value replacing every position
 		for pos := 0; pos < len(v); pos++ {
 			for b := 0; b < 256; b += 1 {
@@ -610,6 +629,20 @@ func exhaustiveC11(thorough bool, emit func(C11Case) bool) {
 				if !emit(C11Case{Kind: "total", Format: f, Text: t}) {
 					return
 				}
+			}
+		}
+	}
+	// nested parentheses at every depth around the powers of two (and named, with lengths, with a
+	// sibling at every level): trees the reader accepts must be written so that they read back
+	for _, d := range []int{1, 2, 15, 16, 17, 31, 32, 33, 34, 63, 64, 65, 66, 127, 128, 129, 130, 255, 256, 257, 1023, 1025, 4097} {
+		for _, in := range []string{
+			strings.Repeat("(", d) + "a" + strings.Repeat(")", d) + ";",
+			strings.Repeat("(", d) + "a:1" + strings.Repeat(")x:2", d) + ";",
+			strings.Repeat("(b,", d) + "a" + strings.Repeat(")", d) + ";",
+			strings.Repeat("(", d) + "a" + strings.Repeat(",c)", d) + ";\n(x,y)z;",
+		} {
+			if !emit(C11Case{Kind: "total", Format: "newick", Text: gen.B(in)}) {
+				return
 			}
 		}
 	}
